@@ -67,6 +67,7 @@ func main() {
 			}
 		}()
 		env := drive.Env{Scratch: *scratch, Seed: *seed + int64(si)*7777, Mode: *mode, N: *n, Shard: si, Shards: sn}
+		drive.PortShard = si
 		f, ok := drive.Modules[mod]
 		if !ok {
 			panic("unknown module " + mod)
